@@ -12,6 +12,7 @@ fn table() -> Vec<(&'static str, RunFn, ReplayFn)> {
     vec![
         ("C01", props::c01::run as RunFn, props::c01::replay as ReplayFn),
         ("C02", props::c02::run as RunFn, props::c02::replay as ReplayFn),
+        ("C03", props::c03::run as RunFn, props::c03::replay as ReplayFn),
         ("C05", props::c05::run as RunFn, props::c05::replay as ReplayFn),
         ("C07", props::c07::run as RunFn, props::c07::replay as ReplayFn),
         ("C11", props::c11::run as RunFn, props::c11::replay as ReplayFn),
